@@ -541,3 +541,21 @@ Qed.
 
 Lemma filter_char : forall (f : N -> bool) l ids, filter f ids = l -> forall id, In id ids -> (f id = true <-> In id l).
 Proof. intros f l ids <- id Hin. rewrite filter_In. tauto. Qed.
+
+(* ------------------------------------------------------------------ alias formatting *)
+Lemma alias_formats_roundtrip_all : forall T A, alias_formats_roundtrip T A = true ->
+  forall id, 1 <= id < nt_count T -> has_alias_format (nth (N.to_nat id) (nt_names T) 0) = true ->
+  forall e, In e (expand_alias_format (formatted_name_of T id)) -> x86_string_to_inst_id T A e = id.
+Proof.
+  intros T A H id R F e He. unfold alias_formats_roundtrip in H.
+  pose proof (proj1 (forallb_forall _ _) H id (proj2 (in_ids_of T id) R)) as Q. cbv beta in Q. rewrite F in Q.
+  apply N.eqb_eq. exact (proj1 (forallb_forall _ _) Q e He).
+Qed.
+
+Lemma alias_table_from_formats : forall T A l, aliases_without_format T A = l ->
+  forall i, i < at_count A -> In i l \/ alias_from_format T A i = true.
+Proof.
+  intros T A l <- i Hi. unfold aliases_without_format. rewrite filter_In.
+  destruct (alias_from_format T A i) eqn:E; [right; reflexivity|left].
+  split; [apply in_nseq; lia|reflexivity].
+Qed.
